@@ -27,7 +27,8 @@ LEVEL_TEXT = ("The decision function is compared with the library's own version 
               ' Also a re-entered client whose second handshake settles on the same version as the first.'
               ' Also a batch rejected while a message of several pipe buffers is being written to the child (both lines must stay whole), odd version strings, re-entry under the same version.'
               " Also a connection on which nothing is negotiated, opened (directly, as a client object, from a spawned task) inside each handshake wrapper's open block."
-              ' Also the first batch written by the server the moment it reads notifications/initialized (and 1-100 ms later), through every handshake wrapper.')
+              ' Also the first batch written by the server the moment it reads notifications/initialized (and 1-100 ms later), through every handshake wrapper.'
+              ' Also batches of 400 kB members (a line beyond a megabyte) arriving in 4 and 64 KiB reads.')
 LEVEL_NOTE = ("Trusted: ScriptedProcess stand-in for anyio.open_process (the OS pipe is covered by C05's real-child tier); "
               "the reference validator in vf/ref.py decides which batch members are valid.")
 RULE = ("A: version strings (year x month x day grid); B: (version schedule, batch members). Non-trivial A: string parses; "
